@@ -104,6 +104,15 @@ static const pcall CALLS[] = {
     {"adaptive", 1, 4096, "rand8", 0}, {"adaptive", 2, 64, "cluster", 49}, {"adaptive", 3, 64, "fewuniq", 3},
     {"adaptive", 4, 64, "asc16", 0},  {"adaptive", 5, 64, "randw", 0},  {"adaptive", 1, 128, "asc1", 0},
     {"adaptive", 2, 300, "outlast", 0},
+    /* short inputs: a single partial block / fewer elements than any internal
+     * batch, where scratch arrays are only partly written by the call itself */
+    {"bp32", 0, 7, "rand32", 0},      {"bp64", 0, 7, "randw", 0},      {"bpd32", 0, 7, "rand32", 0},
+    {"bpd64", 0, 7, "randw", 0},      {"bpd64", 0, 3, "asc1", 0},      {"bp64", 0, 128, "rand8", 0},
+    {"for", 0, 7, "randw", 0},        {"for_batch", 0, 5, "rand8", 0}, {"pfor", 95, 7, "cluster", 200},
+    {"delta_u", 0, 3, "randw", 0},    {"delta_s", 0, 5, "rand32", 0},  {"rle", 0, 7, "runs", 3},
+    {"rle_hdr", 0, 5, "runs", 2},     {"dict", 0, 7, "fewuniq", 3},    {"gamma", 0, 7, "rand8", 0},
+    {"edelta", 0, 5, "randw", 0},     {"group", 0, 3, "randw", 0},     {"adaptive", -1, 7, "randw", 0},
+    {"adaptive", -1, 5, "asc16", 0},
     /* float codec: param = precision * 10 + exponent mode; "specials" mixes
      * zeros, infinities, NaNs and subnormals (from index 2 on) with normals */
     {"float", 0, 64, "specials", 0},  {"float", 11, 64, "specials", 0}, {"float", 22, 64, "specials", 0},
